@@ -1,5 +1,4 @@
 //! Serialisation of abstract record lists into the containers the reader accepts (fixtures; standard formats).
-use flate2::write::GzEncoder;
 use flate2::Compression;
 use std::io::Write;
 
@@ -66,8 +65,18 @@ pub fn join_lines(lines: &[Vec<u8>], lay: &Layout) -> Vec<u8> {
 
 pub fn gzip_members(parts: &[&[u8]], stored: bool) -> Vec<u8> {
     let mut out = Vec::new();
-    for p in parts {
-        let mut e = GzEncoder::new(Vec::new(), if stored { Compression::none() } else { Compression::default() });
+    for (i, p) in parts.iter().enumerate() {
+        let level = if stored { Compression::none() } else { Compression::default() };
+        // members as other tools write them: with a file name, a comment, an extra field (bgzip's "BC" subfield), a changed
+        // modification time - all legal header fields a reader has to skip
+        let b = flate2::GzBuilder::new();
+        let b = match i % 4 {
+            1 => b.filename("reads.fa").mtime(1_600_000_000),
+            2 => b.comment("made by a test").extra(vec![66, 67, 2, 0, 255, 255]),
+            3 => b.filename("x").comment("y").extra(vec![1, 2, 3]),
+            _ => b,
+        };
+        let mut e = b.write(Vec::new(), level);
         e.write_all(p).unwrap();
         out.extend_from_slice(&e.finish().unwrap());
     }
